@@ -102,6 +102,8 @@ impl ChunkSerializer {
             length: message.data.len(),
             force_uncompressed,
             can_be_dropped,
+            data: message.data.to_vec(),
+            output: Vec::new(),
         });
 
         if message.data.len() > 16777215 {
@@ -149,6 +151,9 @@ impl ChunkSerializer {
                 can_be_dropped,
             )?;
         }
+
+        #[cfg(feature = "verif")]
+        ::verif::tap_output(bytes.get_ref());
 
         Ok(Packet {
             bytes: bytes.into_inner(),
